@@ -8,8 +8,10 @@ RULE = ("(a) pure cases: option strings composed from known flags, python-gapic-
         "containing '=', blanks; package sets (0..3 namespace segments, versions v1/v1beta1/v1p1beta1/v2alpha/none/odd, several "
         "packages, upper case, CLI overrides); (template, naming, sub-package, service, proto) tuples over every template of both "
         "trees incl. adversarial values; skeleton APIs (file names needing sanitising, keyword names, dotted names, sub-packages, "
-        "dependency files). (b) end-to-end: generated requests (package shape x version x 1-3 target files incl. a proto "
-        "sub-package x dependency-only files x file names needing sanitising x option strings) run through the real generator. "
+        "dependency files). (b) end-to-end: corpus/C11 (witnesses of repaired defects) first, then generated requests (package shape x "
+        "version incl. v1p1beta1 / v2p3alpha x 1-3 target files incl. proto sub-packages one and two levels deep, services in "
+        "sub-packages x dependency-only files incl. packages sharing a textual prefix x file names needing sanitising incl. "
+        "k8s_min.proto / k8s.min.proto x option strings incl. unknown options with '=' in the value) run through the real generator. "
         "A case is one input tuple; distinct = distinct canonical JSON / request hash; non-trivial = at least one target file.")
 TRUSTED = [
     "Model/Files.v (Options.build, Naming.build, generate/API.build names, _render_template gating and iteration, _get_filename, "
@@ -22,9 +24,9 @@ TRUSTED = [
     "apigen + DescriptorPool as validity judge; jinja2.FileSystemLoader.list_templates = sorted relative paths (T0 extractor)",
 ]
 ASSUMES = ["theorems about emitted names: namespace segments, module name, version, sub-package segments, service and proto module "
-           "names are non-empty words over [a-z0-9_] (version and namespace may be absent); proto sub-packages at most one level "
-           "deep (deeper ones hit API.subpackages' subpackage[0] defect, see C11_nested_subpackage_refuted)",
-           "C11_unknown_options_ignored: the unknown option has at most one '=' (refuted without it: C11_unknown_option_refuted)"]
+           "names are non-empty words over [a-z0-9_] (version and namespace may be absent)",
+           "C11_init_complete: proto sub-packages at most one level deep (hypothesis shallow; the types / services theorems hold "
+           "for any depth, depth 2 of init completeness is covered by C11_nested_example, T1 and the oracle)"]
 
 IMPORTS = "From GV Require Import Model.Case Model.Files Gen.C11Gen."
 
@@ -201,7 +203,7 @@ def filename_checks(ctx, cases, feature="filename"):
 
 
 # ------------------------------------------------------------------ API.build on skeletons
-FNAMES = ["library", "resources", "My-File", "foo.bar", "class", "CamelCase2FA", "metadata", "import", "HTTPApi", "a_b", "x.y.z",
+FNAMES = ["k8s_min", "k8s.min", "k8s_min", "k8s.min", "library", "resources", "My-File", "foo.bar", "class", "CamelCase2FA", "metadata", "import", "HTTPApi", "a_b", "x.y.z",
           "request", "lambda", "Types", "service2", "class_", "__init__"]
 
 
@@ -299,14 +301,15 @@ def run_pure(ctx):
 
 # ------------------------------------------------------------------ end to end: requests
 # (file stem -> module name the generator must give it): fixed reference table, not computed by the model or by /repo
-FILE_POOL = [("library", "library"), ("resources", "resources"), ("My-File", "my-_file"), ("foo.bar", "foo_bar"), ("class", "class_"),
+# k8s_min / k8s.min: the dotted name is sanitised to k8s_min, which is taken when k8s_min.proto comes first -> k8s_min_
+FILE_POOL = [("k8s_min", "k8s_min"), ("k8s.min", "k8s_min"), ("library", "library"), ("resources", "resources"), ("My-File", "my-_file"), ("foo.bar", "foo_bar"), ("class", "class_"),
              ("CamelCase2FA", "camel_case_2fa"), ("metadata", "metadata_"), ("import", "import_"), ("HTTPApi", "http_api"),
              ("a_b", "a_b"), ("x.y.z", "x_y_z"), ("request", "request_"), ("Types", "types"), ("service2", "service2")]
 SVC_POOL = [("Library", "library"), ("BigQueryAdmin", "big_query_admin"), ("IAM", "iam"), ("Aux2B", "aux_2b"), ("X", "x"),
             ("FleetOps", "fleet_ops"), ("Services_", "services_")]
 E2E_NS = [[], ["google"], ["google", "cloud"], ["acme", "data", "x1"], ["my_org"]]
 E2E_NAMES = ["library", "widgets", "big_query", "speech2text", "iam"]
-E2E_VERSIONS = ["v1", "v1beta1", "v1p1beta1", "", "v2alpha"]
+E2E_VERSIONS = ["v1", "v1beta1", "v1p1beta1", "", "v2alpha", "v2p3alpha", "v1p1beta1"]
 DOCUMENTED = {"add-iam-methods", "autogen-snippets", "lazy-import", "metadata", "old-naming", "proto-plus-deps", "rest-numeric-enums",
               "retry-config", "samples", "service-yaml", "transport", "warehouse-package-name"}
 E2E_KNOWN = ["metadata", "transport=grpc", "transport=rest", "transport=grpc+rest", "rest-numeric-enums", "autogen-snippets=false",
@@ -314,7 +317,7 @@ E2E_KNOWN = ["metadata", "transport=grpc", "transport=rest", "transport=grpc+res
 E2E_OVERRIDES = [("python-gapic-name=my_lib", "name", "my_lib"), ("python-gapic-namespace=x.y", "namespace", ["x", "y"]),
                  ("python-gapic-namespace=Zed", "namespace", ["zed"]), ("python-gapic-name=Other", "name", "other")]
 E2E_UNKNOWN = ["foo", "foo=bar", "paths=source_relative", "Mgoogle/api/x.proto=pkg", "go-gapic-package=a;b", "x y", "FOO=1", "Metadata",
-               "python-gapic-bogus=1", "plugins=grpc", ""]
+               "python-gapic-bogus=1", "plugins=grpc", "", "foo=a=b", "Mx.proto=pkg=alias", "k==", "a=b=c=d"]
 E2E_BAD_UNKNOWN = ["foo=a=b", "Mx.proto=pkg=alias"]
 
 
@@ -326,9 +329,17 @@ def gen_request(r, defect=None):
     pkg = ".".join(ns + [name] + ([ver] if ver else []))
     d = pkg.replace(".", "/")
     stems = r.sample(FILE_POOL, r.randint(1, 3))
+    if defect == "dotted" or r.random() < 0.08:
+        stems = [FILE_POOL[0], FILE_POOL[1]] + [x for x in stems if x not in FILE_POOL[:2]][:1]
+        if r.random() < 0.3:
+            stems[0], stems[1] = stems[1], stems[0]
+    if defect is None and r.random() < 0.08:
+        defect = r.choice(["nested", "prefixdep"])
     svcs = r.sample(SVC_POOL, r.randint(0, 3))
     files, mi = [], 0
     sub = r.choice(["sub", "types_ext", "admin"]) if (ver and r.random() < 0.3) or defect in ("nested", "subsvc") else None
+    if stems[:2] in ([FILE_POOL[0], FILE_POOL[1]], [FILE_POOL[1], FILE_POOL[0]]) and len(stems) < 3 and defect not in ("nested", "subsvc"):
+        sub = None
     if defect in ("subsvc", "nested"):
         ver = ver or "v1"
         pkg = ".".join(ns + [name, ver])
@@ -350,7 +361,7 @@ def gen_request(r, defect=None):
         files.insert(0, f)
     rootfiles = [f for f in files if f.proto.package == pkg] or files
     for k, (sname, _) in enumerate(svcs):
-        f = files[-1 - (k % len(files))] if (defect == "subsvc" or r.random() < 0.04) else rootfiles[k % len(rootfiles)]
+        f = files[-1 - (k % len(files))] if (defect == "subsvc" or r.random() < 0.3) else rootfiles[k % len(rootfiles)]
         s = f.service(sname, host="files.example.com", scopes="https://www.googleapis.com/auth/cloud-platform")
         mm = f.proto.message_type[0]
         fq = "." + f.proto.package + "." + mm.name
@@ -430,11 +441,26 @@ def reference(case):
     stem2mod, svc2mod = dict(FILE_POOL + [("top", "top")]), dict(SVC_POOL)
     types, services = set(), set()
     root = "/".join(ns + [name + ("_" + version if version else "")])
+    # file names that collide once dots are replaced (k8s_min.proto, k8s.min.proto) get a trailing underscore, in request order
+    import keyword
+    reserved = set(keyword.kwlist) | {"metadata", "retry", "timeout", "request"}
+    seen, extra = set(), {}
+    for fp in req.proto_file:
+        d, _, b = fp.name.rpartition("/")
+        san = b[:-len(".proto")].replace(".", "_")
+        if san in reserved:
+            san += "_"
+        n = 0
+        while (d, san) in seen:
+            san += "_"
+            n += 1
+        seen.add((d, san))
+        extra[fp.name] = "_" * n
     for fp in tg:
         sub = fp.package[len(package):].strip(".").split(".") if fp.package != package else []
         stem = fp.name.split("/")[-1][:-len(".proto")]
         base = "/".join([root] + sub)
-        types.add(f"{base}/types/{stem2mod[stem]}.py")
+        types.add(f"{base}/types/{stem2mod[stem]}{extra[fp.name]}.py")
         for s in fp.service:
             services.add(f"{base}/services/{svc2mod[s.name]}")
     transports = "grpc"
@@ -617,6 +643,17 @@ def eval_e2e(ctx, checks, tag, ncases):
     ctx.notes[f"{tag}_disagreements"] = failing[:20]
 
 
+def load_corpus():
+    """corpus/C11/*.json: minimised cases that run first (the witnesses of repaired defects, so that a regression is reported)."""
+    out = []
+    d = os.path.join(env.VERIF, "corpus", "C11")
+    for f in sorted(os.listdir(d)) if os.path.isdir(d) else []:
+        if f.endswith(".json"):
+            c = json.load(open(os.path.join(d, f)))["case"]
+            out.append({"request_b64": c["request_b64"], "params": c.get("params") or [], "yaml": c.get("yaml"), "tag": c.get("tag", f)})
+    return out
+
+
 def regen(ctx):
     U.write_case_gen()
     U.write_c11_gen()
@@ -624,9 +661,10 @@ def regen(ctx):
 
 def run(ctx):
     run_pure(ctx)
-    cases = [c for c in (make_case("C11-e2e", i) for i in range(ctx.n(28, 400))) if c]
-    for k, d in enumerate(["eq", "prefixdep", "nested", "subsvc"]):
-        cases += [c for c in (make_case(f"C11-e2e-{d}", i, d) for i in range(ctx.n(1, 5))) if c]
+    cases = load_corpus()
+    cases += [c for c in (make_case("C11-e2e", i) for i in range(ctx.n(26, 400))) if c]
+    for k, d in enumerate(["eq", "prefixdep", "nested", "subsvc", "dotted"]):
+        cases += [c for c in (make_case(f"C11-e2e-{d}", i, d) for i in range(ctx.n(1, 6))) if c]
     checks = run_e2e(ctx, cases)
     eval_e2e(ctx, checks, "c11e2e", len(cases))
 
